@@ -9,8 +9,8 @@ another object's mutex once per call into it.
 * `BlockCache.Set`, `TransactionCache.Set / Remove`: one step.
 * `BlockCache.Get`: one step under `bc.mu` that reads the pending map; on a miss there it reads `base` (own hash after the
   commit, parent before) and the rest of the lookup is a `StateCache.Get` thread of `Conc` (spawned in that step). Go
-  keeps `bc.mu` while that thread runs; the model does not block the block cache meanwhile — more interleavings, which is
-  on the safe side for "every hit is correct".
+  keeps `bc.mu` (deferred unlock, blockcache.go) while `main.Get` runs: the block cache is `busy` until that thread is
+  done — no Set / Get / setValue / Commit on it meanwhile.
 * `TransactionCache.Get`: the transaction's map, then the block cache as above (the transaction's own map cannot change
   between its two reads: `Commit` needs `tc.mu` exclusively; reading both in one step loses no behaviour).
 * `TransactionCache.Commit`: `tcBegin` takes `tc.mu` (no Set / Remove / Get / second Commit of that transaction until the
@@ -62,7 +62,9 @@ def LConc.lookupBlock (l : LConc H K B V) (who h : H) (k : K) : LConc H K B V :=
     if l.isBusy h then l else
     match alookup bc.cache k with
     | some e => { l with direct := (who, k, e.result) :: l.direct }
-    | none => { l with base := l.base.spawn (.reader (Reader.init k bc.base)) }
+    | none =>
+      -- `defer pcc.mu.Unlock()`: the block cache's mutex stays held until the state-cache lookup has returned
+      { l with busy := aset l.busy h l.base.threads.length, base := l.base.spawn (.reader (Reader.init k bc.base)) }
 
 def LConc.step (l : LConc H K B V) : LStep H K B V → LConc H K B V
   | .sc tid =>
@@ -75,6 +77,11 @@ def LConc.step (l : LConc H K B V) : LStep H K B V → LConc H K B V
         { l with base := base', busy := aerase l.busy h,
                  bcs := aset l.bcs h (if eff then { bc with cache := [], committed := true } else bc) }
       | _, _ => { l with base := base' }
+    | some (h, _), some (.reader r) =>
+      -- a `BlockCache.Get` whose `StateCache.Get` has just returned releases the block cache's mutex
+      match r.pc with
+      | .done _ => { l with base := base', busy := aerase l.busy h }
+      | _ => { l with base := base' }
     | _, _ => { l with base := base' }
   | .bset h k v =>
     match alookup l.bcs h with
